@@ -51,6 +51,10 @@ def check_closures(ctx, cfg, want_normal=False, rule_p="C04.P", rule_o="C04.O"):
         seen.add(b["key"])
         frozen = b["key"] in FROZEN or b["key"] in FROZEN_F1
         probs = info["normal_problems"] if want_normal else info["unwind_problems"]
+        if not want_normal and role in ("builder", "consumer"):
+            # a step that ends out of balance (stored but not counted, counted but not stored, read but not advanced) leaves the owner wrong for
+            # every call that can unwind in the NEXT step: the per-step discipline is part of panic safety, not only of the panic-free history
+            probs = list(probs) + [p_ for p_ in info["normal_problems"] if p_ not in probs]
         ctx.ob(rule_p, b["key"], not probs,
                ("; ".join(probs) if probs else "%s closure: %d slot(s), position upvars %s; state at each of the %d foreign/panic call sites is consistent (CLEAN)" % (
                    role, len(info["slots"]), info["positions"], len(info["at_foreign"]))), at=b["at"], cfg=cfg, frozen=True)
@@ -58,8 +62,9 @@ def check_closures(ctx, cfg, want_normal=False, rule_p="C04.P", rule_o="C04.O"):
                     "states_at_foreign_calls": [{"callee": e[3], "reads": st[0], "writes": st[1], "advances": st[2]} for e, st in info["at_foreign"]]})
         if not want_normal:
             link_closure(ctx, cfg, b, info, role, rule_o)
-        elif role == "untracked-consumer":
-            # reading without position tracking is ownership-linear only where the elements need no drop
+        elif role == "untracked-consumer" or info.get("stop_returns"):
+            # reading without position tracking is ownership-linear only where the elements need no drop; a closure that stops its driver with
+            # uncounted steps needs a driver that really stops (parent-side obligation)
             link_closure(ctx, cfg, b, info, role, rule_p)
         n += 1
     # (the closures of the reviewed tree are listed in FROZEN for the record; element-moving code is discovered, not anchored:
